@@ -603,7 +603,7 @@ new_name:
 
                 CREATE_BINARY_OP(expr, F_VOID_ASSIGN, 0, $4, 0);
                 CREATE_OPCODE_1(expr->r.expr, F_GLOBAL_LVALUE, 0,
-                                define_new_variable($2, current_type | $1 | global_modifiers));
+                                check_global_index(define_new_variable($2, current_type | $1 | global_modifiers)));
                 generate(expr);
                 switch_to_block(A_PROGRAM);
                 scratch_free($2);
@@ -854,7 +854,7 @@ foreach_var: L_DEFINED_NAME
                     CREATE_OPCODE_1($$.node, F_LOCAL_LVALUE, 0, $1->dn.local_num);
                 } else
                 if ($1->dn.global_num != -1) {
-                    CREATE_OPCODE_1($$.node, F_GLOBAL_LVALUE, 0, $1->dn.global_num);
+                    CREATE_OPCODE_1($$.node, F_GLOBAL_LVALUE, 0, check_global_index($1->dn.global_num));
                 } else {
                     char buf[256];
                     char *end = EndOf(buf);
@@ -2206,6 +2206,7 @@ expr4:
                       current_function_context->num_locals++;
               } else
                   if ((i = $1->dn.global_num) != -1) {
+                      check_global_index(i);
                       if (current_function_context)
                           current_function_context->bindable = FP_NOT_BINDABLE;
                           CREATE_OPCODE_1($$, F_GLOBAL,
@@ -2500,7 +2501,7 @@ expr4:
                     $$->v.number = FP_FUNCTIONAL;
                     break;
                 case FP_G_VAR:
-                    CREATE_OPCODE_1($$->l.expr, F_GLOBAL, 0, $1 >> 8);
+                    CREATE_OPCODE_1($$->l.expr, F_GLOBAL, 0, check_global_index((int)($1 >> 8)));
                     $$->v.number = FP_FUNCTIONAL | FP_NOT_BINDABLE;
                     if (VAR_TEMP($$->l.expr->l.number)->type & NAME_HIDDEN) {
                       char buf[256];
